@@ -103,9 +103,16 @@ def gen(seed, tier):
         out.append(f"transpose {a} {lst([0] * n)}")
         out.append(f"transpose {a} {lst(list(range(n)) + [0])}")
         out.append(f"expand_dims {a} l0,0")
-        for c in ([], [0] * (n - 1), [0] * (n + 1), [d for d in sh], [2 ** 40] * n):
+        over = []
+        for k_ in range(n):                       # one coordinate just beyond its extent, the others valid (first or last)
+            for base in ([0] * n, [d - 1 for d in sh]):
+                for extra in (0, 1, 2 ** 40):
+                    c = list(base); c[k_] = sh[k_] + extra
+                    over.append(c)
+        for c in [[], [0] * (n - 1), [0] * (n + 1), [d for d in sh], [2 ** 40] * n] + over:
             out.append(f"index_at {lst(sh)} {lst(c)}")
             out.append(f"at {a} {lst(c)}")
+            out.append(f"index_coords {a} {lst(c)}")
         for t in ([tot + 1], [tot, 2], [0], [], [2 ** 40]):
             out.append(f"reshape {a} {lst(t)}")
             out.append(f"broadcast_to {a} {lst(t)}")
